@@ -184,6 +184,13 @@ def _grid(rng: Rng, m, uniform=None):
 
 
 def _affine(rng: Rng, X):
+    if rng.random() < 0.2:
+        # offset >> spread (2^20 .. 2^27 times): a one-pass variance E[X^2] - E[X]^2 cancels catastrophically here,
+        # the two-pass estimators of the code do not (all values stay exactly representable)
+        a = rng.choice([Fraction(1), Fraction(1, 16), Fraction(4)])
+        off = Fraction(2 ** rng.randint(20, 27)) * rng.choice([1, -1])
+        # quantised to 1/64 first, so that every value is exactly a float64 (the model and NumPy see the same numbers)
+        return [[a * Fraction(round(x * 64), 64) + off for x in r] for r in X]
     a = rng.choice([Fraction(1), Fraction(1), Fraction(-3), Fraction(1, 16), Fraction(50)])
     off = rng.choice([0, 0, 1, Fraction(-5, 2), 100, 10000])
     return [[a * x + off for x in r] for r in X]
@@ -410,7 +417,12 @@ def _impl_grid(case, build, out):
     def history():
         # one object through every operation, then again: results must equal those of fresh objects
         fd = build()
+        if case["type"] == "dense1":
+            # first with OTHER options (smoothed mean), then with the options of the case
+            fd.mean(method_smoothing="LP", bandwidth=0.5)
+            fd.center(method_smoothing="LP", bandwidth=0.5)
         fd.center(); fd.normalize(**opts); fd.standardize(center=case["center"]); fd.rescale(**opts); fd.rescale(weights=w)  # noqa: E702
+        fd.rescale(use_argvals_stand=not case["stand"]); fd.standardize(center=not case["center"])  # noqa: E702
         o = dict(center=_grid_vals(fd.center()).tolist(), standardize=_grid_vals(fd.standardize(center=case["center"])).tolist(),
                  w=float(fd.rescale(**opts)[1]), norm=np.asarray(fd.norm(**opts), dtype=float).tolist())
         if "X2" in case and not is_basis:
@@ -491,6 +503,35 @@ def _impl_irreg(case, out, comp=None):
 
     out["rescale_user"] = _call(rescale_user)
 
+    def history():
+        # ONE object: mean / center / standardize with OTHER smoothing options first, then the options of the case
+        alt = _alt_kw(comp["smooth"], len(comp["obs"]))
+        ro = dict(use_argvals_stand=case["stand"], method_integration=case["integ"], **rkw)
+        fd = build()
+        fd.mean(**alt)
+        o = dict(after_mean=_vals(fd.center(**ckw)))
+        fd.center(**alt)
+        fd.standardize(**(alt if alt["method_smoothing"] == "LP" else dict(method_smoothing="LP", bandwidth=0.75)))
+        fd.rescale(weights=w)
+        o["center"] = _vals(fd.center(**ckw))
+        o["w"] = float(fd.rescale(**ro)[1])
+        o["norm"] = np.asarray(fd.norm(**opts), dtype=float).tolist()
+        o["standardize"] = _vals(fd.standardize(**rkw))
+        return o
+
+    out["history"] = _call(history)
+
+
+def _alt_kw(sm, parity):
+    """Smoothing options that differ from the case's own (for the first calls of a history)."""
+    if sm["method"] == "LP":
+        if parity % 2:
+            return dict(method_smoothing="PS", n_segments=4)
+        return dict(method_smoothing="LP", bandwidth=2 * float(F(sm["bw"])))
+    if sm["method"] == "PS":
+        return dict(method_smoothing="PS", n_segments=sm["nseg"] + 3) if parity % 2 else dict(method_smoothing="LP", bandwidth=0.5)
+    return dict(method_smoothing="LP", bandwidth=0.5)
+
 
 def _impl_multi(case, out):
     from FDApy.representation.functional_data import MultivariateFunctionalData
@@ -508,8 +549,15 @@ def _impl_multi(case, out):
 
     def center():
         m = build().center(**ckw)
-        single = [_build(c).center(**ckw) if c["type"] == "irreg" else _build(c).center(**ckw) for c in comps]
-        return dict(v=[cv(x) for x in m.data], single=[cv(x) for x in single])
+        single = [_build(c).center(**ckw) for c in comps]
+        o = dict(v=[cv(x) for x in m.data], single=[cv(x) for x in single])
+        if irr:
+            # ONE multivariate object: centred with other smoothing options first
+            alt = dict(method_smoothing="LP", bandwidth=2 * ckw["bandwidth"])
+            mm = build()
+            mm.center(**alt)
+            o["hist"] = [cv(x) for x in mm.center(**ckw).data]
+        return o
 
     out["center"] = _call(center)
 
@@ -714,7 +762,7 @@ def _compare(case, impl, model):
                 continue
             if op == "standardize":
                 # signed squares of standardised values are <= N; rounding of the centring enters relative to the smallest sd
-                sc = N * (1 + 1e-7 * big / math.sqrt(_min_pos_var(Xf))) if case["center"] else big * big / _min_pos_var(Xf)
+                sc = N * (1 + 1e-6 * big / math.sqrt(_min_pos_var(Xf))) if case["center"] else big * big / _min_pos_var(Xf)
                 ds += _cmp_mat("standardize", r["v"], pmat(outs[ix["std"]]), sc, sq=True)
             elif (trapz and one) or (not one and trapz and not case["stand"]):
                 wq = F(outs[ix["weight"]]) if outs[ix["weight"]] not in ("error", "bad") else None
@@ -855,6 +903,10 @@ def _oracle_grid(case, impl, bad):
     X = np.array([[float(x) for x in r] for r in Xf])
     var_exact = [sum((r[j] - sum(q[j] for q in Xf) / N) ** 2 for r in Xf) / N for j in range(m)]
     causes_b2 = ["basis-2d"] if kind == "basis2" else []
+    pos_var = [float(v) for v in var_exact if v > 0]
+    # conditioning of the two-pass estimators: rounding of x (relative eps) against the spread; enters linearly
+    cond = big / math.sqrt(sum(pos_var) / len(pos_var)) if pos_var else 1.0
+    lin = 4e-15 * cond
     # ---- centring
     c = impl["center"]
     if _err(c):
@@ -889,7 +941,7 @@ def _oracle_grid(case, impl, bad):
             continue
         pv = V.var(axis=0)
         for j in range(m):
-            if var_exact[j] > 0 and abs(pv[j] - 1) > 1e-7 * (1 + big / math.sqrt(float(var_exact[j]))):
+            if var_exact[j] > 0 and abs(pv[j] - 1) > 1e-8 + 1e-13 * big / math.sqrt(float(var_exact[j])):
                 bad("standardize_unit_var", f"pointwise variance after standardising is {pv[j]} at grid point {j} (input variance {float(var_exact[j])})",
                     _entry(case, "standardize"))
                 break
@@ -904,9 +956,9 @@ def _oracle_grid(case, impl, bad):
         bad("runs", f"rescale raised {r['error']}: {r.get('msg')}", _entry(case, "rescale"), causes_b2)
     elif r["w"] > 0 and math.isfinite(r["w"]):
         wx = _exact_weight(case, var_exact)
-        if wx is not None and abs(r["w"] - float(wx)) > 1e-9 * float(wx) * (1 + 1e3 * big / (dev + 1e-300)):
+        if wx is not None and abs(r["w"] - float(wx)) > float(wx) * (1e-9 + lin):
             bad("rescale_weight_value", f"returned weight {r['w']} is not the integrated pointwise variance {float(wx)} of the input (stand={case['stand']})", _entry(case, "rescale"))
-        if abs(r["w_again"] - 1) > 1e-8 * (1 + big / (dev + 1e-300)):
+        if not abs(r["w_again"] - 1) <= 1e-8 + 10 * lin:
             bad("rescale_reestimate_one", f"re-estimated weight after rescaling is {r['w_again']} (weight {r['w']}, stand={case['stand']}, {case['integ']})", _entry(case, "rescale"))
         V = np.array(r["v"])
         if np.abs(V * math.sqrt(r["w"]) - X).max() > 1e-9 * big:
@@ -993,6 +1045,21 @@ def _oracle_irreg(case, impl, bad, comp=None):
                     _entry(case, "standardize"), [cause, "uninitialised"])
                 break
     r = impl["rescale"]
+    h = impl.get("history")
+    if h is not None and not _err(h):
+        if not _err(c):
+            for key, what in (("after_mean", "mean() with other smoothing options"), ("center", "mean/center/standardize/rescale with other smoothing options")):
+                if not _flat_close(h[key], c["v"], 1e-12):
+                    bad("stale_state", f"center(options of the case) on an object that had already run {what} differs from a fresh object "
+                        "(an earlier estimate is reused)", _entry(case, "center"), ["history"] + sub)
+                    break
+        if not _err(r) and not (abs(h["w"] - r["w"]) <= 1e-12 * abs(r["w"]) or (math.isnan(h["w"]) and math.isnan(r["w"]))):
+            bad("stale_state", f"rescale() weight on a used irregular object {h['w']} vs fresh {r['w']}", _entry(case, "rescale"), ["history"] + sub)
+        s0 = impl["standardize"]
+        if not _err(s0) and not _flat_close(h["standardize"], s0["v"], 1e-12):
+            bad("stale_state", "standardize() on a used irregular object differs from a fresh object", _entry(case, "standardize"), ["history"] + sub)
+    elif h is not None and not any(_err(impl[k]) for k in ("center", "standardize", "rescale", "normalize")):
+        bad("runs", f"sequence of operations on one irregular object raised {h['error']}: {h.get('msg')}", _entry(case, "center"), ["history"] + sub)
     if _err(r):
         bad("runs", f"rescale raised {r['error']}: {r.get('msg')}", _entry(case, "rescale"), sub)
     elif r["w"] > 1e-12 and math.isfinite(r["w"]):
@@ -1031,6 +1098,12 @@ def _oracle_multi(case, impl, bad):
             if not _flat_close(a, b, 1e-12):
                 bad("multivariate_componentwise", f"center: component {p} differs from centring the component alone", E + "center")
                 break
+        if "hist" in c:
+            for p, (a, b) in enumerate(zip(c["hist"], c["v"])):
+                if not _flat_close(a, b, 1e-12):
+                    bad("stale_state", f"center on a multivariate object already centred with other smoothing options: component {p} differs from a fresh object",
+                        E + "center", ["history"])
+                    break
     nz = impl["normalize"]
     if _err(nz):
         bad("runs", f"normalize raised {nz['error']}: {nz.get('msg')}", E + "normalize",
@@ -1073,7 +1146,11 @@ def _oracle_multi(case, impl, bad):
                 bad("multivariate_componentwise", f"rescale: weight of component {p} is {a}, the component alone gives {b} (stand={case['stand']}, {case['integ']})", E + "rescale")
                 break
         for p, (a, w) in enumerate(zip(r["w_again"], r["w"])):
-            if w > 1e-12 and abs(a - 1) > 1e-7:
+            comp = case["comps"][p]
+            cond = 1.0
+            if comp["type"] != "irreg" and w > 0:
+                cond = _scales(_exact_grid(comp))[0] / math.sqrt(w)  # offset against the (integrated) spread
+            if w > 1e-12 and not abs(a - 1) <= 1e-7 + 1e-13 * cond:
                 bad("rescale_reestimate_one", f"component {p}: re-estimated weight {a}", E + "rescale")
                 break
     ru = impl["rescale_user"]
@@ -1126,6 +1203,10 @@ def classify(case, impl):
             tags.append("irregular:subselection")
     if case["kind"] == "multi":
         tags.append("multi:" + case["mix"])
+    for c in [case] + list(case.get("comps", [])):
+        if c.get("type", "").startswith("dense") and any(abs(F(x)) >= 2 ** 19 for x in c["X"][0][:1]):
+            tags.append("offset>>spread")
+            break
     if case.get("int") or any(c.get("int") for c in case.get("comps", [])):
         tags.append("dtype:int64")
     if isinstance(impl, dict):
